@@ -910,14 +910,18 @@ fn do_scheduled_action<M: AsRef<[Machine]>>(
             // should we update client/server blocking?
             if is_client {
                 if replace || block > client.blocking_until.unwrap_or(a.time) {
+                    // ongoing blocking stays bypassable only if every action
+                    // that started or updated it allows bypass
+                    client.blocking_bypassable =
+                        bypass && (client.blocking_until.is_none() || client.blocking_bypassable);
                     client.blocking_until = Some(block);
-                    client.blocking_bypassable = bypass;
                 }
                 event_bypass = client.blocking_bypassable;
             } else {
                 if replace || block > server.blocking_until.unwrap_or(a.time) {
+                    server.blocking_bypassable =
+                        bypass && (server.blocking_until.is_none() || server.blocking_bypassable);
                     server.blocking_until = Some(block);
-                    server.blocking_bypassable = bypass;
                 }
                 event_bypass = server.blocking_bypassable;
             }
